@@ -13,6 +13,7 @@ CONSTANTS
   Atomic = FALSE
   CallbacksUnderQueueLock = FALSE
   CountCooldowns = TRUE
-INVARIANTS TypeOK CountExact ListStatusConsistent HasPeerExact OnlyActiveOffered NoEarlyReturn
+  FreshChannelOnWake = FALSE
+INVARIANTS TypeOK CountExact ListStatusConsistent HasPeerExact NoSleepingWaiter OnlyActiveOffered NoEarlyReturn
   CooldownNotLost QueueTimerLive CooldownsExact SlotsSuffice SingleTimer LockSane NoLockCycle
 POSTCONDITION Accepted
